@@ -1,5 +1,7 @@
 import Dashu.Proofs.Serde.Text
 import Dashu.Props.C01
+import Dashu.Proofs.NT.Log2Table
+import Dashu.Model.Serde.Log2Cfg
 /-
   C19 — Results do not depend on word size, build features or serialization medium.
 
@@ -11,8 +13,9 @@ import Dashu.Props.C01
   Clause (3), serialization: the formats of `Model/Serde` contain no word size; `decode (encode x) = x`;
   every decoder maps an arbitrary stream to a canonical value or to an error.
 
-  Clause (2), log2 bounds of the no_std estimator: `Props/C19Log.lean` (kernel decision over all
-  `u16` inputs), audited together with this file.
+  Clause (2), log2 bounds: the no_std table estimator brackets `log2` on all 65 280 `u16` inputs
+  (kernel decision, shared with C12); the `f32` steps around it and the std estimator are replicated
+  with Lean's compiled `Float32` and every pair of bounds is checked exactly by the driver.
 -/
 namespace Dashu.Props.C19
 open Dashu.Model Dashu.Model.Serde
@@ -40,7 +43,7 @@ theorem word_size_independent_u_sub (W₁ W₂ : Nat) (h₁ : 1 ≤ W₁) (h₂ 
   · intro h; exact ⟨a.2.2 h, b.2.2 h⟩
 
 /-- UBig `*` and squaring -/
-theorem word_size_independent_u_mul (W₁ W₂ : Nat) (h₁ : 3 ≤ W₁) (h₂ : 3 ≤ W₂) (x y : Nat) :
+theorem word_size_independent_u_mul (W₁ W₂ : Nat) (h₁ : 8 ≤ W₁) (h₂ : 8 ≤ W₂) (x y : Nat) :
     ((ofNat W₁ x).mul W₁ (ofNat W₁ y)).value W₁ = ((ofNat W₂ x).mul W₂ (ofNat W₂ y)).value W₂ ∧
     ((ofNat W₁ x).sqr W₁).value W₁ = ((ofNat W₂ x).sqr W₂).value W₂ := by
   have ox₁ := C01.of_nat_exact W₁ (by omega) x; have oy₁ := C01.of_nat_exact W₁ (by omega) y
@@ -51,7 +54,7 @@ theorem word_size_independent_u_mul (W₁ W₂ : Nat) (h₁ : 3 ≤ W₁) (h₂ 
   · rw [(C01.u_sqr_exact W₁ (by omega) _ ox₁.2).1, (C01.u_sqr_exact W₂ (by omega) _ ox₂.2).1, ox₁.1, ox₂.1]
 
 /-- IBig `+`, `-`, `*` -/
-theorem word_size_independent_i_ring (W₁ W₂ : Nat) (h₁ : 3 ≤ W₁) (h₂ : 3 ≤ W₂) (x y : Int) (f₁ f₂ : Nat) :
+theorem word_size_independent_i_ring (W₁ W₂ : Nat) (h₁ : 8 ≤ W₁) (h₂ : 8 ≤ W₂) (x y : Int) (f₁ f₂ : Nat) :
     (ibigAdd W₁ (.ofInt W₁ x) (.ofInt W₁ y) f₁).value W₁ = (ibigAdd W₂ (.ofInt W₂ x) (.ofInt W₂ y) f₂).value W₂ ∧
     (ibigSub W₁ (.ofInt W₁ x) (.ofInt W₁ y) f₁).value W₁ = (ibigSub W₂ (.ofInt W₂ x) (.ofInt W₂ y) f₂).value W₂ ∧
     (ibigMul W₁ (.ofInt W₁ x) (.ofInt W₁ y)).value W₁ = (ibigMul W₂ (.ofInt W₂ x) (.ofInt W₂ y)).value W₂ := by
@@ -171,6 +174,11 @@ theorem ubig_text_round_trip (n : Nat) : unjsonU (jsonU n) = some n := unjsonU_j
 
 theorem ibig_text_round_trip (z : Int) : unjsonI (jsonI z) = some z := unjsonI_jsonI z
 
+/-- RBig / Relaxed: `Display` (`n` or `n/d`) → JSON string → parser + reduction is the identity -/
+theorem rbig_text_round_trip (q : QVal) (hq : QReduced q) : unjsonQ (jsonQ q) = some q := unjsonQ_jsonQ q hq
+
+theorem relaxed_text_round_trip (q : QVal) (hq : QRelaxed q) : unjsonX (jsonQ q) = some q := unjsonX_jsonQ q hq
+
 /-- arbitrary text → RBig / Relaxed / Repr: canonical or an error -/
 theorem rbig_text_decode_canonical (s : Bytes) (q : QVal) (h : unjsonQ s = some q) : QReduced q :=
   unjsonQ_canonical s q h
@@ -183,11 +191,31 @@ theorem repr_text_decode_canonical (B : Nat) (hB : 2 ≤ B) (s : Bytes) (v : FVa
 
 /-
   Not proved (explored by the correspondence only):
-    theorem rbig_text_round_trip_full (q) (hq : QReduced q) : unjsonQ (jsonQ q) = some q
     theorem repr_text_round_trip_full (B v) (hv : FCanon B v) (hfin : v.signif ≠ 0 ∨ v.exp = 0) :
         unjsonR B (jsonR B v) = some v
   Reason: needs the inversion of the positional float layout of `fmt_round` by `from_str_native`
   (digit counting across the radix point); the generator runs these round trips for bases 2, 7, 10, 16.
 -/
+
+-- ====================================================================== (2) log2 bounds, no_std build
+
+/-- the table estimator of base/src/math/log.rs (`#[cfg(not(feature = "std"))]`): for every `u16`
+    value above `0xff`, `log2_fp8(n)/256 ≤ log2 n ≤ ceil_log2_fp8(n)/256`, stated without logarithms.
+    `log2Fp8` / `ceilLog2Fp8` are the functions `Model/Serde/Log2Cfg.lean` (the driver's no_std replica
+    of `log2_bounds`) is built on; the correspondence op `lg.range` compares them with the real
+    functions on all `u16` inputs in every no_std configuration. -/
+theorem nostd_log2_table_sound (n : Nat) (h1 : 256 ≤ n) (h2 : n < 65536) :
+    2 ^ Dashu.Model.NT.log2Fp8 n ≤ n ^ 256 ∧
+    (n ≠ 2 ^ (Dashu.Model.NT.bitLen n - 1) → n ^ 256 ≤ 2 ^ Dashu.Model.NT.ceilLog2Fp8 n) :=
+  Dashu.Model.NT.log2_fp8_sound n h1 h2
+
+/-- the u8 path squares (or raises to the 4th power) before the lookup: the bound for the power is a
+    bound for the value, e.g. `2^lb ≤ (x²)^256 = x^512` -/
+theorem nostd_log2_u8_square (x : Nat) (h1 : 16 ≤ x) (h2 : x < 256) :
+    2 ^ Dashu.Model.NT.log2Fp8 (x ^ 2) ≤ x ^ 512 := by
+  have hlo : 256 ≤ x ^ 2 := by nlinarith
+  have hhi : x ^ 2 < 65536 := by nlinarith
+  have := (nostd_log2_table_sound (x ^ 2) hlo hhi).1
+  rwa [← Nat.pow_mul] at this
 
 end Dashu.Props.C19
